@@ -439,6 +439,16 @@ func Gen(r *rand.Rand, wantBodies bool) Project {
 					}
 				}
 				m.Body = g.stmts(f, 2, v, r.Intn(6))
+				if r.Intn(6) == 0 {
+					// a creation whose FIRST argument is an unqualified call and a later argument another creation,
+					// followed by the same unqualified call as a statement of its own
+					cn := g.pick(callees)
+					inner := javagen.Expr{K: "new", Type: g.classes[r.Intn(len(g.classes))].Name, Args: []javagen.Expr{}}
+					outer := javagen.Expr{K: "new", Type: g.classes[r.Intn(len(g.classes))].Name,
+						Args: []javagen.Expr{{K: "call", RecvKind: "none", Callee: cn, Args: []javagen.Expr{}}, inner}}
+					again := javagen.Expr{K: "call", RecvKind: "none", Callee: cn, Args: []javagen.Expr{}}
+					m.Body = append(m.Body, javagen.Stmt{K: "expr", E: &outer}, javagen.Stmt{K: "expr", E: &again})
+				}
 				if m.Kind == "method" && m.Type != "void" {
 					m.Body = append(m.Body, javagen.Stmt{K: "return", E: &javagen.Expr{K: "lit", Text: "null"}})
 				}
